@@ -340,12 +340,16 @@ fn mode_caps(mode: &str) -> ChecksumCapabilities {
 }
 
 fn mk_world(med: Med, mode: &str) -> World {
+    mk_world_mtu(med, mode, if med == Med::Lowpan { 127 } else { 1514 })
+}
+
+fn mk_world_mtu(med: Med, mode: &str, dev_mtu: usize) -> World {
     let (medium, hw) = match med {
         Med::Ip => (Medium::Ip, HardwareAddress::Ip),
         Med::Eth => (Medium::Ethernet, HardwareAddress::Ethernet(EthernetAddress(IF_MAC))),
         Med::Lowpan => (Medium::Ieee802154, HardwareAddress::Ieee802154(Ieee802154Address::Extended(IF_LL))),
     };
-    let mut dev = QDev::new(medium, if med == Med::Lowpan { 127 } else { 1514 });
+    let mut dev = QDev::new(medium, dev_mtu);
     dev.checksum = mode_caps(mode);
     let mut config = Config::new(hw);
     config.random_seed = 0x1234_5678;
@@ -1013,6 +1017,230 @@ fn oracle_iface(seed: u64, n: usize, tier: &str, out: &mut dyn Write) {
     .unwrap();
 }
 
+// ------------------------------------------------------------------------------------------
+// oracle 3: fragmented IPv4 egress — every emitted fragment header verifies, and so does the transport
+// checksum of the independently reassembled datagram
+// ------------------------------------------------------------------------------------------
+
+const FRAG_KINDS: &[&str] = &["udp", "icmp", "raw", "echo-reply"];
+const FRAG_MTUS: &[usize] = &[68, 100, 128, 200, 256, 296, 400, 576];
+
+struct FragStats {
+    instances: u64,
+    fragments: u64,
+    three_or_more: u64,
+    reassembled: u64,
+    incomplete: u64,
+    nothing: u64,
+}
+
+/// run one fragmented-egress instance; returns failures (class, detail)
+fn frag_check(kind: &str, med: Med, mode: &str, ip_mtu: usize, payload: &[u8], st: &mut FragStats) -> Vec<(String, String)> {
+    use smoltcp::socket::raw;
+    let mut fails: Vec<(String, String)> = vec![];
+    let dev_mtu = if med == Med::Eth { ip_mtu + 14 } else { ip_mtu };
+    let mut w = mk_world_mtu(med, mode, dev_mtu);
+    w.learn_peer();
+    let raw_proto = IpProtocol::Unknown(253);
+    let h_raw = if kind == "raw" {
+        let rb = |n: usize, sz: usize| raw::PacketBuffer::new(vec![raw::PacketMetadata::EMPTY; n], vec![0u8; sz]);
+        Some(w.sockets.add(raw::Socket::new(Some(IpVersion::Ipv4), Some(raw_proto), rb(2, 4096), rb(2, 4096))))
+    } else {
+        None
+    };
+    match kind {
+        "udp" => {
+            let u = w.sockets.get_mut::<udp::Socket>(w.h_udp);
+            if u.send_slice(payload, IpEndpoint::new(IpAddress::Ipv4(peer_v4()), 9000)).is_err() {
+                return fails;
+            }
+        }
+        "icmp" => {
+            let r = Icmpv4Repr::EchoRequest { ident: ICMP_IDENT, seq_no: 3, data: payload };
+            let ic = w.sockets.get_mut::<icmp::Socket>(w.h_icmp);
+            match ic.send(r.buffer_len(), IpAddress::Ipv4(peer_v4())) {
+                Ok(buf) => r.emit(&mut Icmpv4Packet::new_unchecked(buf), &ChecksumCapabilities::default()),
+                Err(_) => return fails,
+            }
+        }
+        "raw" => {
+            let r = Ipv4Repr { src_addr: if_v4(), dst_addr: peer_v4(), next_header: raw_proto, payload_len: payload.len(), hop_limit: 33 };
+            let mut b = vec![0u8; 20 + payload.len()];
+            r.emit(&mut Ipv4Packet::new_unchecked(&mut b[..]), &ChecksumCapabilities::default());
+            b[20..].copy_from_slice(payload);
+            let rs = w.sockets.get_mut::<raw::Socket>(h_raw.unwrap());
+            if rs.send_slice(&b).is_err() {
+                return fails;
+            }
+        }
+        _ => {
+            // an echo request larger than the MTU (handed to the interface in one piece): the reply is fragmented
+            w.inject(&mk_echo(true, payload));
+        }
+    }
+    let mut frames = vec![];
+    for _ in 0..40 {
+        w.poll();
+        frames.extend(w.take_tx());
+    }
+    st.instances += 1;
+    // the IPv4 packets among the emitted frames
+    let mut pkts: Vec<Vec<u8>> = vec![];
+    for f in frames {
+        let ip: &[u8] = if med == Med::Eth {
+            if f.len() < 14 || f[12] != 0x08 || f[13] != 0x00 {
+                continue;
+            }
+            &f[14..]
+        } else {
+            &f[..]
+        };
+        if ip.len() >= 20 && ip[0] >> 4 == 4 {
+            pkts.push(ip.to_vec());
+        }
+    }
+    if pkts.is_empty() {
+        st.nothing += 1;
+        return fails;
+    }
+    st.fragments += pkts.len() as u64;
+    if pkts.len() >= 3 {
+        st.three_or_more += 1;
+    }
+    let tx_on = mode == "both" || mode == "tx";
+    if !tx_on {
+        return fails;
+    }
+    // 1. every emitted IPv4 header verifies
+    for (k, p) in pkts.iter().enumerate() {
+        let hl = ((p[0] & 0xf) as usize) * 4;
+        if hl < 20 || hl > p.len() {
+            continue;
+        }
+        if rfc_sum(&[&p[..hl]]) != 0xffff && !fails.iter().any(|(c, _)| c == "emitted-bad-ipv4-header") {
+            let fo = (((p[6] as u16) << 8) | p[7] as u16) & 0x1fff;
+            fails.push((
+                "emitted-bad-ipv4-header".into(),
+                format!("{} {:?} caps {} ip-mtu {}: fragment #{} of {} (MF={} offset={}) leaves with an invalid IPv4 header checksum: {}", kind, med, mode, ip_mtu, k, pkts.len(), (p[6] >> 5) & 1, fo as usize * 8, hex(&p[..hl])),
+            ));
+        }
+    }
+    // 2. independent reassembly (per ident), then the transport checksum
+    let mut groups: BTreeMap<(u16, u8), Vec<&Vec<u8>>> = BTreeMap::new();
+    for p in &pkts {
+        groups.entry(((((p[4] as u16) << 8) | p[5] as u16), p[9])).or_default().push(p);
+    }
+    for ((_, proto), mut g) in groups {
+        g.sort_by_key(|p| (((p[6] as u16) << 8) | p[7] as u16) & 0x1fff);
+        let mut data: Vec<u8> = vec![];
+        let mut complete = true;
+        for (k, p) in g.iter().enumerate() {
+            let hl = ((p[0] & 0xf) as usize) * 4;
+            let tl = ((p[2] as usize) << 8) | p[3] as usize;
+            let fo = ((((p[6] as u16) << 8) | p[7] as u16) & 0x1fff) as usize * 8;
+            let mf = (p[6] >> 5) & 1 == 1;
+            if tl > p.len() || tl < hl || fo != data.len() || mf != (k + 1 < g.len()) {
+                complete = false;
+                break;
+            }
+            data.extend_from_slice(&p[hl..tl]);
+        }
+        if !complete {
+            st.incomplete += 1;
+            continue;
+        }
+        st.reassembled += 1;
+        let p0 = g[0];
+        if let Verdict::Invalid(r) = indep_check_l4(&p0[12..16], &p0[16..20], proto, &data) {
+            fails.push((format!("reassembled-bad-{}", r), format!("{} {:?} caps {} ip-mtu {}: {} fragments reassemble to a datagram whose {} checksum does not verify", kind, med, mode, ip_mtu, g.len(), r)));
+        }
+    }
+    fails
+}
+
+fn frag_case(id: String, kind: &str, med: Med, mode: &str, mtu: usize, payload: &[u8]) -> Case {
+    Case {
+        id,
+        cfg: vec![("kind".into(), "frag".into()), ("scen".into(), kind.into()), ("medium".into(), med_name(med).into()), ("caps".into(), mode.into()), ("mtu".into(), mtu.to_string())],
+        ops: vec![format!("payload {}", hex(payload))],
+    }
+}
+
+fn oracle_frag(seed: u64, n: usize, _tier: &str, out: &mut dyn Write) {
+    let mut rng = Rng::new(seed ^ 0xF4A6);
+    let mut st = FragStats { instances: 0, fragments: 0, three_or_more: 0, reassembled: 0, incomplete: 0, nothing: 0 };
+    let mut fails: Vec<(String, String)> = vec![];
+    let mut todo: Vec<Case> = vec![];
+    if seed % 1000 == 0 {
+        todo.extend(corpus_cases("frag"));
+    }
+    let shard = (seed % 1000) as usize;
+    for i in 0..n {
+        let j = shard * n + i;
+        let kind = FRAG_KINDS[j % FRAG_KINDS.len()];
+        let med = if (j / FRAG_KINDS.len()) % 2 == 0 { Med::Ip } else { Med::Eth };
+        let mtu = FRAG_MTUS[(j / (2 * FRAG_KINDS.len())) % FRAG_MTUS.len()];
+        let mode = if rng.chance(1, 6) { "tx" } else { "both" };
+        // IP packet <= 1500 bytes (FRAGMENTATION_BUFFER_SIZE); mostly >= 3 fragments
+        let len = match rng.below(8) {
+            0 => rng.range(1, mtu as i64) as usize,
+            1 => rng.range(mtu as i64, 2 * mtu as i64) as usize,
+            _ => rng.range((2 * mtu as i64).min(1300), 1464) as usize,
+        };
+        let payload = rng.bytes(len);
+        todo.push(frag_case(format!("f{}-{}", seed, i), kind, med, mode, mtu, &payload));
+    }
+    for c in &todo {
+        for (class, detail) in replay_frag_case(c, &mut st) {
+            if !fails.iter().any(|(c2, _)| *c2 == class) {
+                writeln!(out, "FAILCASE").unwrap();
+                c.write(out);
+                fails.push((class, detail));
+            }
+        }
+    }
+    if st.three_or_more == 0 || st.reassembled == 0 {
+        fails.push(("frag-oracle-vacuous".into(), format!("no instance produced >= 3 fragments / a complete datagram ({} instances)", st.instances)));
+    }
+    for (c, d) in &fails {
+        writeln!(out, "FAIL {} :: {}", c, d).unwrap();
+    }
+    writeln!(
+        out,
+        "STATS {{\"cases\":{},\"fragments_checked\":{},\"instances_with_3_or_more_fragments\":{},\"datagrams_reassembled\":{},\"incomplete\":{},\"nothing_emitted\":{}}}",
+        st.instances, st.fragments, st.three_or_more, st.reassembled, st.incomplete, st.nothing
+    )
+    .unwrap();
+}
+
+fn replay_frag_case(c: &Case, st: &mut FragStats) -> Vec<(String, String)> {
+    let med = if c.get("medium") == Some("eth") { Med::Eth } else { Med::Ip };
+    let mut payload = vec![0u8; 1200];
+    for op in &c.ops {
+        let t: Vec<&str> = op.split_whitespace().collect();
+        if t[0] == "payload" {
+            payload = unhex(t[1]);
+        }
+    }
+    let (kind, mode, mtu) = (c.get("scen").unwrap_or("udp").to_string(), c.get("caps").unwrap_or("both").to_string(), c.get_i("mtu", 296) as usize);
+    match catch_unwind(AssertUnwindSafe(|| {
+        let mut s2 = FragStats { instances: 0, fragments: 0, three_or_more: 0, reassembled: 0, incomplete: 0, nothing: 0 };
+        let f = frag_check(&kind, med, &mode, mtu, &payload, &mut s2);
+        (f, s2)
+    })) {
+        Ok((f, s2)) => {
+            st.instances += s2.instances;
+            st.fragments += s2.fragments;
+            st.three_or_more += s2.three_or_more;
+            st.reassembled += s2.reassembled;
+            st.incomplete += s2.incomplete;
+            st.nothing += s2.nothing;
+            f
+        }
+        Err(_) => vec![("frag-egress-panics".into(), format!("case {}", c.id))],
+    }
+}
+
 /// replay of FAILCASE / corpus cases of both oracles (read from stdin)
 fn oracle_replay(out: &mut dyn Write) {
     replay_cases(&stdin_cases(), out);
@@ -1028,6 +1256,12 @@ fn replay_cases(cases: &[Case], out: &mut dyn Write) {
                         Ok(Some((class, detail))) => writeln!(out, "FAIL {} :: case {} `{}`: {}", class, c.id, &op[..op.len().min(160)], &detail[..detail.len().min(300)]).unwrap(),
                         Err(_) => writeln!(out, "FAIL emit-panicked :: case {}", c.id).unwrap(),
                     }
+                }
+            }
+            Some("frag") => {
+                let mut st = FragStats { instances: 0, fragments: 0, three_or_more: 0, reassembled: 0, incomplete: 0, nothing: 0 };
+                for (class, detail) in replay_frag_case(c, &mut st) {
+                    writeln!(out, "FAIL {} :: case {}: {}", class, c.id, detail).unwrap();
                 }
             }
             Some("iface") => {
